@@ -7,6 +7,7 @@ import (
 	"os"
 	"path/filepath"
 	"strings"
+	"time"
 
 	"github.com/folbricht/desync"
 )
@@ -224,5 +225,57 @@ func runC17(cfg Config) {
 			run(blob, bad, "wrong-id", false)
 		}
 	}
+	c17CLI(cfg, rep, rng)
 	rep.Write(cfg.Out)
+}
+
+// c17CLI: the real `desync verify-index`: exit status 0 iff the file is the indexed blob, for every -n, including
+// the index of an empty blob
+func c17CLI(cfg Config, rep *Report, rng *rand.Rand) {
+	bin := desyncBin()
+	if bin == "" {
+		rep.Notes = append(rep.Notes, "desync binary not built: command-line verify-index runs skipped")
+		return
+	}
+	dir := filepath.Join(cfg.Work, "cli17")
+	os.MkdirAll(dir, 0755)
+	defer os.RemoveAll(dir)
+	for it := 0; it < cfg.N(8, 80); it++ {
+		nchunks := []int{0, 0, 1, 3, 25, 60}[it%6]
+		var sizes []int
+		total := 0
+		for i := 0; i < nchunks; i++ {
+			z := 100 + rng.Intn(400)
+			sizes = append(sizes, z)
+			total += z
+		}
+		blob := randBytes(rng, total)
+		idx := desync.Index{Index: desync.FormatIndex{FeatureFlags: desync.CaFormatSHA512256 | desync.CaFormatExcludeNoDump, ChunkSizeMin: 64, ChunkSizeAvg: 256, ChunkSizeMax: 1024},
+			Chunks: indexOf(blob, sizes)}
+		idxFile, file := filepath.Join(dir, "blob.caibx"), filepath.Join(dir, "blob")
+		f, _ := os.Create(idxFile)
+		idx.WriteTo(f)
+		f.Close()
+		variants := map[string][]byte{"exact": blob, "extended-1": append(append([]byte{}, blob...), 7), "extended-many": append(append([]byte{}, blob...), randBytes(rng, 5000)...)}
+		if total > 0 {
+			fl := append([]byte{}, blob...)
+			fl[rng.Intn(total)] ^= 4
+			variants["flipped"] = fl
+			variants["truncated"] = blob[:total-1]
+		}
+		for tag, content := range variants {
+			os.WriteFile(file, content, 0644)
+			for _, n := range []string{"1", "2", "10", "64"} {
+				r := runCLI(bin, nil, nil, 60*time.Second, "verify-index", "-n", n, idxFile, file)
+				caseLine := fmt.Sprintf("cli.verify-index chunks=%d n=%s file=%s", nchunks, n, tag)
+				rep.Count(caseLine, true, "cli.verify-index:"+tag, fmt.Sprintf("cli-exit0:%v", r.exit == 0))
+				if tag == "exact" && r.exit != 0 {
+					rep.Disagree(Disagreement{Kind: "monitor", Case: caseLine, What: "desync verify-index rejects the file the index describes: " + clip(r.stderr, 200)})
+				}
+				if tag != "exact" && r.exit == 0 {
+					rep.Disagree(Disagreement{Kind: "monitor", Case: caseLine, What: fmt.Sprintf("desync verify-index exits with status 0 for a file (%d bytes, %s) that is not the indexed blob (%d bytes)", len(content), tag, total)})
+				}
+			}
+		}
+	}
 }
